@@ -963,6 +963,11 @@ class AdapterRegistry(BaseAdapterRegistry):
 
         super()._setBases(bases)
 
+        # Our resolution order is part of the resolution order of
+        # every registry that has us as a base: recompute theirs too.
+        for sub in list(self._v_subregistries.keys()):
+            sub._setBases(sub.__bases__)
+
     def changed(self, originally_changed):
         super().changed(originally_changed)
 
